@@ -840,3 +840,165 @@ Proof.
   intros t. rewrite <- reachable_abs.
   apply collect_next_all. apply (reachable_wf ops).
 Qed.
+
+(* ---------------------------------------------------------------- range form (backward) *)
+
+(* descending lists: what [rev] of a sorted map is *)
+Fixpoint dsorted (X : omap val) : Prop :=
+  match X with [] => True | e :: X' => Forall (fun x => klt (fst x) (fst e)) X' /\ dsorted X' end.
+
+Lemma dsorted_app_single X e : dsorted X -> Forall (fun x => klt (fst e) (fst x)) X -> dsorted (X ++ [e]).
+Proof.
+  induction X as [|x X IH]; simpl; intros S F; [split; auto|].
+  destruct S as [Fx S]. inversion F; subst. split; auto.
+  apply Forall_app. split; auto.
+Qed.
+
+Lemma rev_dsorted (m : omap val) : sorted m -> dsorted (rev m).
+Proof.
+  induction m as [|e m IH]; simpl; auto. intros [L S]. apply dsorted_app_single; auto.
+  unfold lb in L. rewrite Forall_forall in *. intros x Hx. apply L. apply in_rev. auto.
+Qed.
+
+Lemma range_rest_out_desc (X : omap val) (e : key * val) s limit :
+  Forall (fun x => klt (fst x) (fst e)) X -> kleb s (fst e) = false ->
+  filter (fun x => in_range (Some s) limit (fst x)) X = [].
+Proof.
+  intros F H. induction X as [|x X IH]; simpl; auto. inversion F; subst.
+  unfold in_range at 1. assert (kleb s (fst x) = false) as ->.
+  { apply kleb_gt. apply kleb_gt in H. eapply klt_trans; eauto. }
+  simpl. auto.
+Qed.
+
+Lemma in_range_start_false start limit k :
+  match limit with Some l => kltb k l | None => true end = true ->
+  in_range start limit k = false -> exists s, start = Some s /\ kleb s k = false.
+Proof.
+  unfold in_range. intros ->. rewrite andb_true_r. destruct start as [s|]; [eauto|discriminate].
+Qed.
+
+Lemma filter_rev {A} (f : A -> bool) l : filter f (rev l) = rev (filter f l).
+Proof.
+  induction l; simpl; auto. rewrite filter_app. simpl. rewrite IHl. destruct (f a); simpl; auto.
+  rewrite app_nil_r. auto.
+Qed.
+
+Lemma range_last_desc (X : omap val) start limit : dsorted X ->
+  ofilter (in_range start limit)
+    (match limit with Some l => find (fun e => kltb (fst e) l) X | None => hd_error X end) =
+  hd_error (filter (fun e => in_range start limit (fst e)) X).
+Proof.
+  induction X as [|e X IH]; simpl; intros S.
+  - destruct limit; auto.
+  - destruct S as [F S]. specialize (IH S).
+    destruct limit as [l|].
+    + destruct (kltb (fst e) l) eqn:K; simpl.
+      * destruct (in_range start (Some l) (fst e)) eqn:R; auto.
+        destruct (in_range_start_false start (Some l) (fst e) K R) as (s & -> & Hs).
+        rewrite (range_rest_out_desc X e s (Some l)) by auto. auto.
+      * unfold in_range at 2. rewrite K. rewrite andb_false_r. auto.
+    + simpl. destruct (in_range start None (fst e)) eqn:R; auto.
+      destruct (in_range_start_false start None (fst e) eq_refl R) as (s & -> & Hs).
+      rewrite (range_rest_out_desc X e s None) by auto. auto.
+Qed.
+
+Lemma range_last (m : omap val) start limit : sorted m ->
+  ofilter (in_range start limit)
+    (match limit with Some l => OMap.seek_lt m l | None => OMap.last m end) =
+  OMap.last (OMap.range m start limit).
+Proof.
+  intros S. unfold OMap.seek_lt, OMap.last, OMap.range. rewrite <- filter_rev.
+  apply range_last_desc. apply rev_dsorted; auto.
+Qed.
+
+Lemma range_seek_lt_desc (X : omap val) start limit k : dsorted X -> in_range start limit k = true ->
+  ofilter (in_range start limit) (find (fun e => kltb (fst e) k) X) =
+  find (fun e => kltb (fst e) k) (filter (fun e => in_range start limit (fst e)) X).
+Proof.
+  intros S Rk. induction X as [|e X IH]; simpl; auto.
+  destruct S as [F S]. specialize (IH S).
+  destruct (kltb (fst e) k) eqn:K; simpl.
+  - destruct (in_range start limit (fst e)) eqn:R; simpl; [rewrite K; auto|].
+    assert (Lt : match limit with Some l => kltb (fst e) l | None => true end = true).
+    { unfold in_range in Rk. apply andb_true_iff in Rk. destruct Rk as [_ Rl].
+      destruct limit as [l|]; auto. apply kltb_lt. apply kltb_lt in K, Rl. eapply klt_trans; eauto. }
+    destruct (in_range_start_false start limit (fst e) Lt R) as (s & -> & Hs).
+    rewrite (range_rest_out_desc X e s limit) by auto. auto.
+  - destruct (in_range start limit (fst e)); simpl; [rewrite K|]; auto.
+Qed.
+
+Lemma range_seek_lt (m : omap val) start limit k : sorted m -> in_range start limit k = true ->
+  ofilter (in_range start limit) (OMap.seek_lt m k) = OMap.seek_lt (OMap.range m start limit) k.
+Proof.
+  intros S R. unfold OMap.seek_lt, OMap.range. rewrite <- filter_rev.
+  apply range_seek_lt_desc; auto. apply rev_dsorted; auto.
+Qed.
+
+(* ---------------------------------------------------------------- the whole backward walk *)
+
+Lemma collect_prev_from f : forall it pre e post,
+  bst (i_root it) -> i_new it = false -> i_seek it = None -> pos_ok it -> current it = Some e ->
+  OMap.range (elements (i_root it)) (i_start it) (i_limit it) = pre ++ e :: post ->
+  (length pre < f)%nat -> collect_prev f it = rev pre.
+Proof.
+  induction f as [|f IH]; intros it pre e post B Nw Sk P C E Hf; [lia|].
+  simpl. destruct (prev it) as [it' b] eqn:N.
+  destruct (current_node_key it e C) as [Ke Nn].
+  apply prev_spec in N; auto. rewrite Sk, Ke in N.
+  destruct N as (C' & Hb & S & Sk' & Nw' & P').
+  assert (Srt : sorted (elements (i_root it))) by exact B.
+  assert (Re : in_range (i_start it) (i_limit it) (fst e) = true).
+  { assert (In e (OMap.range (elements (i_root it)) (i_start it) (i_limit it))).
+    { rewrite E. apply in_or_app. right. left. auto. }
+    unfold OMap.range in H. apply filter_In in H. tauto. }
+  unfold irange in C'. rewrite range_seek_lt in C' by auto.
+  pose proof (range_sorted _ (i_start it) (i_limit it) Srt) as Sr. rewrite E in *.
+  destruct e as [ke ve]. simpl in C'. rewrite seek_lt_split in C' by auto.
+  destruct (rev pre) as [|e' rp] eqn:Erp; simpl in C'; rewrite C' in *; simpl in Hb; subst b; auto.
+  f_equal. destruct S as (R1 & R2 & R3 & _).
+  assert (Epre : pre = rev rp ++ [e']).
+  { rewrite <- (rev_involutive pre), Erp. simpl. auto. }
+  rewrite <- (rev_involutive rp).
+  apply (IH it' (rev rp) e' ((ke, ve) :: post)); auto; try congruence.
+  - rewrite R1, R2, R3. rewrite E, Epre, <- app_assoc. auto.
+  - rewrite Epre, app_length in Hf. simpl in Hf. lia.
+Qed.
+
+Lemma collect_prev_all t start limit mut : bst t ->
+  collect_prev (S (length (elements t))) (new_iter t start limit mut) =
+  rev (OMap.range (elements t) start limit).
+Proof.
+  intros B. simpl. unfold prev. simpl i_new. cbv iota.
+  destruct (last (new_iter t start limit mut)) as [it' b] eqn:F.
+  apply last_spec in F; auto. simpl in F.
+  destruct F as (C & Hb & S & Sk & Nw & P).
+  unfold irange in C. simpl in C. rewrite range_last in C by exact B.
+  destruct S as (R1 & R2 & R3 & _). simpl in *.
+  unfold OMap.last in C.
+  destruct (rev (OMap.range (elements t) start limit)) as [|e rp] eqn:E; simpl in C; rewrite C in *;
+    simpl in Hb; subst b; auto.
+  f_equal.
+  assert (Er : OMap.range (elements t) start limit = rev rp ++ [e]).
+  { rewrite <- (rev_involutive (OMap.range (elements t) start limit)), E. simpl. auto. }
+  rewrite <- (rev_involutive rp).
+  apply (collect_prev_from _ it' (rev rp) e []); auto; try congruence.
+  - pose proof (filter_length_le (fun e => in_range start limit (fst e)) (elements t)) as Hl.
+    unfold OMap.range in Er. rewrite Er, app_length in Hl. simpl in Hl. lia.
+Qed.
+
+Lemma walk_back_reachable ops start limit mut :
+  let t := root (run_ops ops empty) in
+  collect_prev (S (length (elements t))) (new_iter t start limit mut) =
+  rev (OMap.range (spec_ops ops []) start limit).
+Proof.
+  intros t. rewrite <- reachable_abs.
+  apply collect_prev_all. apply (reachable_wf ops).
+Qed.
+
+Lemma last_range_spec it it' b : bst (i_root it) -> last it = (it', b) ->
+  current it' = OMap.last (OMap.range (elements (i_root it)) (i_start it) (i_limit it)) /\
+  b = is_some (current it') /\ it_same it it' /\ i_seek it' = None /\ i_new it' = false /\ pos_ok it'.
+Proof.
+  intros B E. destruct (last_spec it it' b B E) as (C & R).
+  split; auto. rewrite C. apply range_last. exact B.
+Qed.
